@@ -3962,12 +3962,12 @@ impl<'a> CodeGenerator<'a> {
                     let eval_program: Program<NamedDeBruijn> =
                         program.clean_up_no_inlines().try_into().unwrap();
 
-                    let term: Term<Name> = eval_program
-                        .eval(ExBudget::max())
-                        .result()
-                        .unwrap_or_else(|e| panic!("Failed to evaluate constant: {e:#?}"))
-                        .try_into()
-                        .unwrap();
+                    // A constant whose definition fails (e.g. a division by zero or an
+                    // out-of-range builtin argument) fails wherever it is referenced.
+                    let term: Term<Name> = match eval_program.eval(ExBudget::max()).result() {
+                        Ok(term) => term.try_into().unwrap(),
+                        Err(_) => Term::Error,
+                    };
 
                     // Only pure constant results are position-independent for
                     // certain; anything else (which shouldn't happen for a
